@@ -354,13 +354,13 @@ func (e *SpecEnv) call(n *ECall) SV {
 	case "deref":
 		// deref(p): content of a cell pointer
 		v := arg(0)
-		if v.K == KLoc && v.Loc.Kind == "cell" {
+		if v.K == KLoc && (v.Loc.Kind == "cell" || v.Loc.Kind == "builder") {
 			return e.x.readCell(e.H, v.Loc)
 		}
 		e.fail("deref of %s", v.String())
 	case "cellid":
 		v := arg(0)
-		if v.K == KLoc && v.Loc.Kind == "cell" {
+		if v.K == KLoc && (v.Loc.Kind == "cell" || v.Loc.Kind == "builder") {
 			return term(v.Loc.Cell, SInt)
 		}
 		e.fail("cellid of %s", v.String())
